@@ -184,6 +184,55 @@ func runOp(kind string, g int, seed int64, i int) (out string) {
 			verdicts = append(verdicts, e1 != nil, ok)
 		}
 		return digest(verdicts)
+	case "reject_proposal":
+		// proposals the library must refuse, each for another unsupported element, through both constructors; the owner KEEPS every
+		// error it was given (it logs them when the exchange is over): each still reads as it read when it was returned
+		bad := [][2]int{{4, 5}, {4, 15}, {1, 3}, {1, 13}, {2, 3}, {3, 5}, {4, 19}, {2, 7}, {3, 9}, {5, 7}}
+		var kept []error
+		var texts []string
+		for k := 0; k < 5; k++ {
+			id := bad[(g*3+i+k)%len(bad)]
+			child := (g+k)%2 == 1
+			trs := []any{
+				J{"c": 1, "tt": 1, "tid": 12, "attr": "tv", "at": 14, "av": []int{128, 192, 256}[(g+k)%3], "avl": Oct{}},
+				J{"c": 2, "tt": 2, "tid": 2, "attr": "none", "at": 0, "av": 0, "avl": Oct{}},
+				J{"c": 3, "tt": 3, "tid": 2, "attr": "none", "at": 0, "av": 0, "avl": Oct{}},
+				J{"c": 4, "tt": 4, "tid": 14, "attr": "none", "at": 0, "av": 0, "avl": Oct{}}}
+			if child {
+				trs[1] = J{"c": 5, "tt": 5, "tid": 0, "attr": "none", "at": 0, "av": 0, "avl": Oct{}}
+				if id[0] == 2 {
+					id = [2]int{5, 7}
+				}
+			} else if id[0] == 5 {
+				id = [2]int{4, 5}
+			}
+			for q, t := range trs {
+				if gi(t.(J), "tt") == id[0] {
+					trs[q] = J{"c": id[0], "tt": id[0], "tid": id[1], "attr": "none", "at": 0, "av": 0, "avl": Oct{}}
+				}
+			}
+			pl, err := buildPayload(J{"k": "SA", "props": []any{J{"num": 1, "proto": map[bool]int{false: 1, true: 3}[child], "spi": Oct{1, 2, 3, 4}[:map[bool]int{false: 0, true: 4}[child]], "tr": trs}}})
+			if err != nil {
+				return "infra: " + err.Error()
+			}
+			prop := pl.(*message.SecurityAssociation).Proposals[0]
+			if child {
+				_, err = security.NewChildSAKeyByProposal(prop)
+			} else {
+				_, _, err = security.NewIKESAKey(prop, fillPattern("seeded", 256, g), fillPattern("seeded", 32, g+1), 1, 2)
+			}
+			if err == nil {
+				return fmt.Sprintf("absolute: a proposal with unsupported transform type %d id %d was accepted", id[0], id[1])
+			}
+			kept = append(kept, err)
+			texts = append(texts, err.Error())
+		}
+		for k, err := range kept {
+			if err.Error() != texts[k] {
+				return fmt.Sprintf("absolute: an error the caller kept changed after later calls: it read %q when returned and reads %q now", texts[k], err.Error())
+			}
+		}
+		return digest(texts)
 	case "decode_unknown":
 		// own datagram (a copy of the shared one) with an unsupported, non-critical payload spliced in front: the skip
 		// path of the chain walker, on every goroutine at once
@@ -483,6 +532,25 @@ func raceMain(argv []string) int {
 			J{"k": "KE", "grp": 14, "data": fillPattern("seeded", 256, 1)}, J{"k": "NONCE", "data": fillPattern("seeded", 32, 2)},
 			J{"k": "N", "proto": 0, "ntype": 16388, "spi": Oct{}, "data": fillPattern("seeded", 20, 3)}}})
 		sharedWire, _ = m.Encode()
+		// as datagrams arrive in the field: an unsupported, non-critical payload (a vendor extension) in front of the chain and one
+		// at its end -- the shared datagram goes through the skipping branch of every decoder that reads it
+		if len(sharedWire) > 32 {
+			w := sharedWire
+			unk1 := []byte{w[16], 0, 0, 9, 1, 2, 3, 4, 5}
+			w2 := append(append(append([]byte{}, w[:28]...), unk1...), w[28:]...)
+			w2[16] = 201
+			for off := 28; off+4 <= len(w2); {
+				l := int(binary.BigEndian.Uint16(w2[off+2 : off+4]))
+				if w2[off] == 0 || l < 4 {
+					w2[off] = 202
+					break
+				}
+				off += l
+			}
+			w2 = append(w2, 0, 0, 0, 6, 9, 9)
+			binary.BigEndian.PutUint32(w2[24:28], uint32(len(w2)))
+			sharedWire = w2
+		}
 		sharedSnap = append([]byte{}, sharedWire...)
 		sharedPeer = new(big.Int).SetBytes(dh.StrToType(dhNames[14]).GetPublicValue(new(big.Int).SetBytes(fillPattern("seeded", 64, 99))))
 		sharedPeerSnap = new(big.Int).Set(sharedPeer)
